@@ -80,6 +80,48 @@ func errorGlobals(c *chk.Ctx) map[*ssa.Global]int64 {
 	return out
 }
 
+// failRecorders: the private functions of the root package through which the
+// member parser records a validation failure: they take a Code, build an Error
+// with it, and either store it in the message (a method of the message type)
+// or hand it back (a function the running "first defect" is threaded through).
+// The map gives the position of the code among the arguments.
+func failRecorders(c *chk.Ctx) map[*ssa.Function]int {
+	out := map[*ssa.Function]int{}
+	for _, f := range pkgFuncs(c, c.M.Pkg) {
+		if f.Parent() != nil || ir.Exported(f) || len(f.Params) == 0 {
+			continue
+		}
+		idx := -1
+		for i, p := range f.Params {
+			if strings.HasSuffix(p.Type().String(), ".Code") && !(i == 0 && f.Signature.Recv() != nil) {
+				idx = i
+			}
+		}
+		if idx < 0 {
+			continue
+		}
+		builds := false
+		ir.Instrs(f, func(ins ssa.Instruction) {
+			st, ok := ins.(*ssa.Store)
+			if !ok || ir.NormCell(st.Val) != ssa.Value(f.Params[idx]) {
+				return
+			}
+			if fa, ok := st.Addr.(*ssa.FieldAddr); ok && ir.FieldOwner(fa) == c.M.ErrorT && ir.FieldVar(fa).Name() == "Code" {
+				builds = true
+			}
+		})
+		if !builds {
+			continue
+		}
+		isMethod := ir.RecvNamed(f) == c.M.Jmessage
+		returnsErr := f.Signature.Results().Len() == 1 && strings.HasSuffix(f.Signature.Results().At(0).Type().String(), ".Error")
+		if isMethod || returnsErr {
+			out[f] = idx
+		}
+	}
+	return out
+}
+
 // errGlobalOf: v is a load of an *Error global, possibly through .WithData(...) and interface conversions.
 func errGlobalOf(c *chk.Ctx, v ssa.Value) *ssa.Global {
 	for i := 0; i < 6; i++ {
@@ -124,15 +166,17 @@ func ruleCodeTable(c *chk.Ctx, d *dispatchModel) {
 		c.Check(want[n] == k, "TABLE.codes", nil, "constant "+n, 0, fmt.Sprintf("%s = %d as in the JSON-RPC 2.0 specification", n, k), fmt.Sprintf("%s = %d, the specification says %d", n, want[n], k))
 	}
 	// fail(code, ...) sites in the member parser
+	recorders := failRecorders(c)
 	nFail := 0
 	for _, f := range pkgFuncs(c, c.M.Pkg) {
 		ir.Calls(f, func(ci ssa.CallInstruction) {
 			g := ci.Common().StaticCallee()
-			if g == nil || ir.RecvNamed(g) != c.M.Jmessage || g.Signature.Params().Len() < 1 || !strings.HasSuffix(g.Signature.Params().At(0).Type().String(), ".Code") {
+			idx, isRec := recorders[g]
+			if g == nil || !isRec || idx >= len(ci.Common().Args) {
 				return
 			}
 			nFail++
-			k, isC := ir.ConstInt(ci.Common().Args[1])
+			k, isC := ir.ConstInt(ci.Common().Args[idx])
 			ok := isC && (k == spec["ParseError"] || k == spec["InvalidRequest"])
 			c.Check(ok, "TABLE.codes", f, "member validation code", ci.Pos(), fmt.Sprintf("constant code %d ∈ {-32700, -32600}", k), fmt.Sprintf("a structurally invalid member is classified with code %d (constant=%v), not -32700/-32600", k, isC))
 		})
@@ -475,6 +519,63 @@ func ruleIDHandling(c *chk.Ctx) {
 				ok = true
 			}
 		}
+		if !ok {
+			// or a length test plus one comparison of the four bytes as an array:
+			// len(msg) == 4 ∧ [4]byte(msg) == [4]byte{'n','u','l','l'}
+			lenOK, arrOK, other := false, false, 0
+			ir.Instrs(f, func(ins ssa.Instruction) {
+				bo, isBO := ins.(*ssa.BinOp)
+				if !isBO {
+					return
+				}
+				if bo.Op != token.EQL {
+					other++
+					return
+				}
+				if _, isLen := ir.LenOf(bo.X); isLen {
+					if k, isC := ir.ConstInt(bo.Y); isC && k == 4 {
+						lenOK = true
+						return
+					}
+				}
+				for _, pr := range [][2]ssa.Value{{bo.X, bo.Y}, {bo.Y, bo.X}} {
+					ua, okA := pr[0].(*ssa.UnOp)
+					ub, okB := pr[1].(*ssa.UnOp)
+					if !okA || !okB {
+						continue
+					}
+					conv, isConv := ua.X.(*ssa.SliceToArrayPointer)
+					lit, isLit := ub.X.(*ssa.Alloc)
+					if !isConv || !isLit {
+						continue
+					}
+					if _, fromParam := conv.X.(*ssa.Parameter); !fromParam {
+						continue
+					}
+					text := map[int64]int64{}
+					for _, ref := range *lit.Referrers() {
+						if ia, isIA := ref.(*ssa.IndexAddr); isIA {
+							idx, isC := ir.ConstInt(ia.Index)
+							for _, r2 := range *ia.Referrers() {
+								if st, isSt := r2.(*ssa.Store); isSt && isC {
+									if k, isK := ir.ConstInt(st.Val); isK {
+										text[idx] = k
+									}
+								}
+							}
+						}
+					}
+					if len(text) == 4 && string([]byte{byte(text[0]), byte(text[1]), byte(text[2]), byte(text[3])}) == "null" {
+						arrOK = true
+						return
+					}
+				}
+				other++
+			})
+			if lenOK && arrOK && other == 0 {
+				ok = true
+			}
+		}
 		c.Check(ok, "TABLE.null", f, "null token", f.Pos(), "exactly the 4-byte token null counts as absent", fmt.Sprintf("the null predicate tests len %v and bytes %v, not exactly the token null", lens, bytes))
 	}
 	// the member parser stores the raw id only on the isValidID true edge
@@ -544,9 +645,22 @@ func ruleIDHandling(c *chk.Ctx) {
 				bad = "strconv." + callee.Name() + " at " + c.P.Pos(call.Pos())
 			case path == "encoding/json" && (callee.Name() == "Unmarshal" || callee.Name() == "Decode"):
 				bad = "json." + callee.Name() + " at " + c.P.Pos(call.Pos())
+			case (path == "bytes" || path == "strings") && (strings.HasPrefix(callee.Name(), "Index") || strings.HasPrefix(callee.Name(), "LastIndex") || strings.HasPrefix(callee.Name(), "Contains") || callee.Name() == "Count") && len(call.Call.Args) > 0 && derivesFromParam(call.Call.Args[0]):
+				// (what is searched is the token; looking the token's first byte up in a constant
+				// table of admissible first bytes is a classification by first byte)
+				// (nor does it search the token's text: a string id may contain any character,
+				// and the kind of token is told by its first byte)
+				bad = path + "." + callee.Name() + " at " + c.P.Pos(call.Pos())
 			}
 		})
-		c.Check(bad == "", "TABLE.null", g, "every JSON number is a valid id", g.Pos(), "the id predicate classifies the token without a numeric parser", "the id validity predicate runs the token through "+bad+": a request whose id is a JSON number that this parser rejects (a fraction, an exponent, a value out of range) would be refused and answered with id null")
+		c.P.ExtInstrs(g, func(ins ssa.Instruction) {
+			if ia, ok := ins.(*ssa.IndexAddr); ok && ir.InCycle(ia.Block()) {
+				if _, isParam := ir.NormCell(ia.X).(*ssa.Parameter); isParam && ins.Parent() == g && bad == "" {
+					bad = "a scan of the token's bytes at " + c.P.Pos(ia.Pos())
+				}
+			}
+		})
+		c.Check(bad == "", "TABLE.null", g, "every JSON number is a valid id", g.Pos(), "the id predicate classifies the token without a numeric parser", "the id validity predicate runs the token through "+bad+": a request whose id is a JSON number that this parser rejects (a fraction, an exponent, a value out of range), or a string containing the character searched for, would be refused and answered with id null")
 	}
 }
 
@@ -1253,6 +1367,29 @@ func ruleParseRequests(c *chk.Ctx) {
 						if ld, ok := src.(*ssa.UnOp); ok {
 							if ia2, ok := ld.X.(*ssa.IndexAddr); ok && ia2.Index == ia.Index {
 								okIdx = true
+							}
+							// (or the entries are appended, one per member and unconditionally, in
+							// the loop over the members: the i-th append is member i's)
+							if ia2, ok := ld.X.(*ssa.IndexAddr); ok {
+								if arr, isArr := ia.X.(*ssa.Alloc); isArr && ir.InCycle(st.Block()) && st.Block() == ia2.Block() {
+									if at, isAT := arr.Type().(*types.Pointer).Elem().Underlying().(*types.Array); isAT && at.Len() == 1 {
+										appended := false
+										for _, ar := range *arr.Referrers() {
+											if sl, isSl := ar.(*ssa.Slice); isSl {
+												for _, sr := range *sl.Referrers() {
+													if ac, isCall := sr.(*ssa.Call); isCall {
+														if b, isB := ac.Call.Value.(*ssa.Builtin); isB && b.Name() == "append" && ac.Block() == st.Block() {
+															appended = true
+														}
+													}
+												}
+											}
+										}
+										if appended {
+											okIdx = true
+										}
+									}
+								}
 							}
 						}
 						okErr = true
@@ -2111,6 +2248,27 @@ func fromDecodedObject(c *chk.Ctx, v ssa.Value) bool {
 	for _, src := range c.P.SourcesStop(v, func(x ssa.Value) bool { return isElem(x) || viaField(x) }) {
 		if isElem(src) {
 			return true
+		}
+	}
+	return false
+}
+
+// derivesFromParam: v is a parameter of its function, possibly converted,
+// re-sliced or held in a local.
+func derivesFromParam(v ssa.Value) bool {
+	for i := 0; i < 6; i++ {
+		v = ir.NormCell(v)
+		switch x := v.(type) {
+		case *ssa.Parameter:
+			return true
+		case *ssa.Convert:
+			v = x.X
+		case *ssa.ChangeType:
+			v = x.X
+		case *ssa.Slice:
+			v = x.X
+		default:
+			return false
 		}
 	}
 	return false
